@@ -51,6 +51,7 @@ package batch
 //
 //@ func (*Writer).Add
 //@   requires writerOK(r)
+//@   atcall Add arg1 == op_0 && arg2 == protocolVersion_0
 //@   sets addOffered = addOffered + 1
 //@   ensures addCalls <= old(addCalls) + 1 && addCalls >= old(addCalls)
 //@   ensures addCalls == old(addCalls) + 1 ==> lastReaddVersion == protocolVersion
@@ -63,6 +64,10 @@ package batch
 // a failure before the anchor is written re-queues nothing
 //@ func (*Writer).process
 //@   requires writerOK(r) && qopsNonNil(ops)
+//   the whole batch goes to the handler; the k-th deferred operation is the one re-queued by the k-th Add, under the
+//   version of the batch
+//@   atcall PrepareTxnFiles arg1 == ops_0
+//@   atcall Add arg1 == anchoringInfo.AdditionalOperations[_k] && arg2 == protocolVersion
 //@   loop 1
 //@     invariant anchorsWritten == old(anchorsWritten) + 1 && addCalls <= old(addCalls) + _k && addOffered == old(addOffered) + _k
 //@     invariant addCalls > old(addCalls) ==> lastReaddVersion == protocolVersion
@@ -77,6 +82,8 @@ package batch
 // nack on any processing error, ack only after the anchor was written
 //@ func (*Writer).cutAndProcess
 //@   requires writerOK(r)
+//   what was cut is what is processed, under the protocol version the cutter reports for it
+//@   atcall process arg1 == result.Operations && arg2 == result.ProtocolVersion
 //@   results n, pending, err
 //@   ensures err != nil ==> acks == old(acks) && n == 0
 //@   ensures err != nil && anchorsWritten == old(anchorsWritten) && cutCalls == old(cutCalls) + 1 ==> nacks <= old(nacks) + 1
